@@ -223,6 +223,9 @@ func (prop) Generate(r *prng.Rand, phase string) any {
 	}
 	curR := 0
 	otherLayout := func() int {
+		if s.Kind != mgeom.GC && cur[curR] != 0 && r.Chance(0.12) {
+			return 0 // a part created without a layout: a mismatch like any other
+		}
 		for {
 			l := 1 + r.Intn(6)
 			if l != cur[curR] {
